@@ -134,12 +134,40 @@ theorem pack_then_idx_safe (G : Nat → List Nat) (s : FS) (hpre : Pre specPack 
 
 example : Pre specPack (graphOf specPack) (toFS specPack.known) := pre_of_check _ (by decide)
 
-/-- In the model a pack is read only when BOTH files are present (as `_update_pack_cache` does), so
-the index-first order is accepted too; what matters is that neither file is written in place: -/
-theorem idx_then_pack_also_safe :
+/-- A pack is read only when BOTH files are present (`_update_pack_cache`), so on a start state with no
+file of that name the index-first order passes too … -/
+theorem idx_then_pack_without_orphan_accepted :
     checkProgram specPack
       [.write (.tmp 2) (.idxData 1 [1, 2]), .rename (.tmp 2) (.idx 1),
        .write (.tmp 1) (.packData 1), .rename (.tmp 1) (.pack 1)] = true := by decide
+
+/-- … but NOT when an earlier crash of the same operation left an orphaned `.pack` of the same name
+(same object set, other bytes: checksum 9): pack-first overwrites the orphan before the index appears, -/
+def specPackOrphan : Spec :=
+  { specPack with known := (.pack 1, some (.packData 9)) :: specPack.known }
+
+theorem pack_then_idx_over_orphan_safe (G : Nat → List Nat) (s : FS) (hpre : Pre specPackOrphan G s)
+    (k : Nat) : Recoverable specPackOrphan G s (run (progPack.take k) s) :=
+  crashSafe_of_check _ _ (by decide) G s hpre k
+
+example : Pre specPackOrphan (graphOf specPackOrphan) (toFS specPackOrphan.known) :=
+  pre_of_check _ (by decide)
+
+/-- index-first pairs the new index with the orphan's bytes: `Pack.data` raises `ChecksumMismatch`
+on every read that walks the packs. -/
+def progIdxFirst : List Call :=
+  [.write (.tmp 2) (.idxData 1 [1, 2]), .rename (.tmp 2) (.idx 1),
+   .write (.tmp 1) (.packData 1), .rename (.tmp 1) (.pack 1)]
+
+theorem idx_before_pack_over_orphan_rejected : checkProgram specPackOrphan progIdxFirst = false := by
+  decide
+
+theorem idx_before_pack_over_orphan_counterexample :
+    ∃ G s, Pre specPackOrphan G s ∧
+      ¬ Recoverable specPackOrphan G s (run (progIdxFirst.take 2) s) := by
+  refine ⟨graphOf specPackOrphan, toFS specPackOrphan.known, pre_of_check _ (by decide), fun h => ?_⟩
+  have := h.paired 1 9 1 [1, 2] (by decide) (by decide)
+  exact absurd this (by decide)
 
 theorem pack_in_place_rejected :
     checkProgram specPack
